@@ -10,7 +10,7 @@ Not decided: the sequential semantics cell by cell (needs a reference interprete
 import re
 
 from verif import core
-from verif.tree import walk, walk_fn, show, stmt_list, meth, strip
+from verif.tree import children, walk, walk_fn, show, stmt_list, meth, strip
 
 LEVEL = "other"
 FP = "opm/input/eclipse/EclipseState/Grid/FieldProps.cpp"
@@ -502,5 +502,126 @@ def run(chk):
         else:
             if not canon_equal(got, want):
                 chk.violation(r_op, "formula:" + name, "OPERATE %s computes %s; the documented operation is %s" % (name, got, want), f["file"], rets[0]["l"])
+
+    # ---- C12.assign: which deck entries overwrite which cells in a direct assignment
+    r_as = chk.rule("C12.assign", "assign_deck (direct assignment of an array keyword): evaluated over all (status of the deck entry, status of the cell) pairs, the condition that guards the write holds for every explicit deck value and, for a defaulted entry (n*), never for a cell that already has a value - in the per-active-cell loop and in the global-storage loop alike (earlier ADD/MULTIPLY/OPERATE results and distributed top-layer values survive a later assignment that defaults those cells)", floor=2)
+    vs = chk.facts([FP], files_re=r"^/repo/opm/input/eclipse/Deck/value_status\.hpp$")
+    st_enum = vs.enums.get("Opm::value::status")
+    if st_enum is None:
+        raise core.AnalysisBroken("enum Opm::value::status not found")
+    ST = [i_["n"] for i_ in st_enum["items"]]
+    st_fns = {f["n"]: f for f in vs.fns if f.get("body") and f["q"].startswith("Opm::value::")}
+    ad = [f for f in fns if f["n"] == "assign_deck"]
+    if len(ad) != 1:
+        raise core.AnalysisBroken("assign_deck: %d definitions" % len(ad))
+    ad = ad[0]
+    glob_locals = {v["n"] for n in walk(ad["body"]) if n["k"] == "Decl" for v in n["vars"] if isinstance(v.get("init"), dict) and "global_value_status" in show(v["init"])}
+
+    def subject(e):
+        e = strip(e)
+        base = None
+        if e.get("k") == "Idx":
+            base = strip(e["c"][0])
+        elif e.get("k") == "OpCall" and e.get("op") == "[]" and len(e.get("a") or []) == 2:
+            base = strip(e["a"][0])
+        if base is None:
+            return None
+        if base.get("k") == "Ref" and base.get("d") == "Parm" and "value::status" in (base.get("t") or "") and (base.get("t") or "").startswith("const"):
+            return "deck"
+        if base.get("k") in ("Mem", "DMem") and base.get("n") == "value_status":
+            return "cell"
+        if base.get("k") == "Ref" and base.get("n") in glob_locals:
+            return "cell"
+        return None
+
+    def truth(e, d, c, depth=0):
+        """value of the guard for deck-entry status d and cell status c; None if not decidable"""
+        e = strip(e)
+        k = e.get("k")
+        if (k == "Bin" and e.get("op") in ("||", "&&")) or (k == "OpCall" and e.get("op") in ("||", "&&")):
+            xs = e.get("c") or e.get("a")
+            a, b = truth(xs[0], d, c, depth), truth(xs[1], d, c, depth)
+            if a is None or b is None:
+                return None
+            return (a or b) if e["op"] == "||" else (a and b)
+        if k == "Un" and e.get("op") == "!":
+            a = truth(e["c"][0], d, c, depth)
+            return None if a is None else (not a)
+        if (k in ("Bin", "OpCall")) and e.get("op") in ("==", "!="):
+            xs = [strip(x) for x in (e.get("c") or e.get("a"))]
+            for x, y in ((xs[0], xs[1]), (xs[1], xs[0])):
+                if y.get("k") == "Ref" and y.get("d") == "Enum" and (y.get("q") or "").startswith("Opm::value::status") and subject(x):
+                    v = d if subject(x) == "deck" else c
+                    return (v == y["n"]) == (e["op"] == "==")
+            return None
+        if k == "Call" and len(e.get("a") or []) == 1 and depth < 2:
+            nm = ((e.get("fn") or "") or (e.get("callee") or {}).get("n") or "").split("::")[-1]
+            fn_ = st_fns.get(nm)
+            sj = subject(e["a"][0])
+            if fn_ is not None and sj:
+                rets = [x for x in walk(fn_["body"]) if x["k"] == "Return" and x.get("e") is not None]
+                if len(rets) == 1:
+                    pn = fn_["params"][0]["n"]
+                    v = d if sj == "deck" else c
+
+                    def ev(x):
+                        x = strip(x)
+                        if x.get("k") == "Bin" and x.get("op") in ("||", "&&"):
+                            a, b = ev(x["c"][0]), ev(x["c"][1])
+                            return None if a is None or b is None else ((a or b) if x["op"] == "||" else (a and b))
+                        if x.get("k") == "Bin" and x.get("op") in ("==", "!="):
+                            p_, q_ = strip(x["c"][0]), strip(x["c"][1])
+                            for u, w in ((p_, q_), (q_, p_)):
+                                if u.get("k") == "Ref" and u.get("n") == pn and w.get("d") == "Enum":
+                                    return (v == w["n"]) == (x["op"] == "==")
+                        return None
+                    return ev(rets[0]["e"])
+        return None
+    has_val = {s_ for s_ in ST if s_ in ("deck_value", "valid_default")}
+    hv = st_fns.get("has_value")
+    if hv is None:
+        raise core.AnalysisBroken("value::has_value not found")
+    writes = []
+    pm = {}
+    for n in walk(ad["body"]):
+        for ch in children(n):
+            pm[id(ch)] = n
+    for n in walk(ad["body"]):
+        lhs = None
+        if n["k"] == "Bin" and n.get("asg") and n.get("op") == "=":
+            lhs = n["c"][0]
+        elif n["k"] == "OpCall" and n.get("op") == "=" and len(n.get("a") or []) == 2:
+            lhs = n["a"][0]
+        if lhs is not None and subject(lhs) == "cell":
+            conds = []
+            p_ = pm.get(id(n))
+            child = n
+            while p_ is not None and p_["k"] not in ("For", "ForRange", "While"):
+                if p_["k"] == "If" and any(x is child for x in walk(p_["then"])):
+                    conds.append(p_["cond"])
+                child, p_ = p_, pm.get(id(p_))
+            writes.append((n, conds))
+    if len(writes) < 2:
+        raise core.AnalysisBroken("assign_deck: expected a status write in the active loop and one in the global loop, found %d" % len(writes))
+    for n, conds in writes:
+        where = "global storage" if any(x.get("k") == "Ref" and x.get("n") in glob_locals for x in walk((n.get("c") or n.get("a"))[0])) else "active storage"
+        key = "assign_deck:%s" % where.replace(" ", "_")
+        table = {}
+        undec = False
+        for d in ST:
+            for c in ST:
+                vals = [truth(cnd, d, c) for cnd in conds]
+                if any(v is None for v in vals):
+                    undec = True
+                table[(d, c)] = all(vals) if not undec else None
+        if undec:
+            raise core.AnalysisBroken("assign_deck (%s): the guard `%s` is not a Boolean combination of status comparisons" % (where, " && ".join(show(c_)[:80] for c_ in conds)))
+        chk.instance(r_as, key, sample=dict(storage=where, guard=[show(c_)[:120] for c_ in conds], writes_when=sorted("%s<-%s" % (c, d) for (d, c), v in table.items() if v)))
+        miss = [c for c in ST if not table[("deck_value", c)]]
+        over = [c for c in ST if c in has_val and table[("valid_default", c)]]
+        if miss:
+            chk.violation(r_as, key + ":explicit", "assign_deck (%s): an explicit deck value is not written to a cell whose status is %s" % (where, miss), ad["file"], n["l"])
+        if over:
+            chk.violation(r_as, key + ":default", "assign_deck (%s): a defaulted deck entry (n*) overwrites a cell whose status is %s, i.e. a cell that already has a value: what an earlier ADD / MULTIPLY / MINVALUE / OPERATE or the top-layer distribution left there is reset to the keyword default by a later assignment that merely defaults the cell" % (where, over), ad["file"], n["l"])
 
     chk.assumptions += ["role table in rules/C12.py: FieldData::data/value_status are per active cell, global_* per grid cell, deck_* per input-box cell; Box::global_index_list() stores the global index in .active_index (documented)"]
